@@ -50,6 +50,8 @@ def _apply(rebound, rb, sim, cfg, op):
     k = op["op"]
     if k in ("steps", "integrate") and sim.N > 0 and sim.N_active == 0:
         return "skip"           # "no active particle at all" is a degenerate set-up several integrators do not survive
+    if k in ("steps", "integrate") and sim.N - sim.N_var > 0 and sim.integrator in ("trace", "mercurius") and not sim.particles[0].m > 0.0:
+        return "skip"           # hybrid integrators need a massive central body at index 0 (a test particle swapped there by an unsorted removal makes the encounter step spin for ever)
     if k == "integrate" and sim.N == 0:
         return "skip"           # empty simulation: the NO_PARTICLES exit is C08's subject (with BS it also depends on whether the internal ODE exists yet)
     if k == "steps":
